@@ -50,6 +50,15 @@ func cpIncr(bz []byte) (ret []byte) {
 	return []byte{0x00}
 }
 
+// keyAfter returns the smallest key that sorts strictly after bz: bz with 0x00 appended.
+// Range proofs must use it instead of cpIncr: cpIncr skips every key that has bz as a proper
+// prefix and wraps around to 0x00.. when bz is all 0xFF.
+func keyAfter(bz []byte) []byte {
+	ret := make([]byte, len(bz)+1)
+	copy(ret, bz)
+	return ret
+}
+
 func cp(bz []byte) (ret []byte) {
 	ret = make([]byte, len(bz))
 	copy(ret, bz)
